@@ -361,7 +361,7 @@ static void RegPrefix(
         pInfo->CodeLen = PrefixLen + 1 + 1;
         SimpleNextAddress(pInfo, Address);
         as_snprintf(
-                pInfo->SrcLine, sizeof(pInfo->SrcLine), "%s\t%c,%s", ALUInstr[Opcode & 7],
+                pInfo->SrcLine, sizeof(pInfo->SrcLine), "%s\t%c,%sh", ALUInstr[Opcode & 7],
                 Reg8Names[SrcRegIndex],
                 ZeroHexString(NumBuf, sizeof(NumBuf), Data[0], 1));
         break;
